@@ -82,6 +82,12 @@ def corpus():
     c['acc-peer-release-collision'] = ('acceptor', [
         ('burst', enc(RQ_SPEC)), ('user', {'pdu': AC_SPEC}), ('user', {'pdu': REL_RQ}),
         ('burst', enc(REL_RQ, REL_RP)), ('user', {'pdu': REL_RP}), ('close',)])
+    c['acc-echo-abort-close'] = ('acceptor', [
+        ('burst', enc(RQ_SPEC)), ('user', {'pdu': AC_SPEC}), ('burst', enc(echo_rq(1), ABORT_SP)), ('close',)])
+    c['acc-rq-abort-close'] = ('acceptor', [('burst', enc(RQ_SPEC, ABORT_SP)), ('close',)])
+    c['req-ac-data-release-close'] = ('requestor', [
+        ('user', {'pdu': RQ_SPEC}), ('burst', enc(AC_SPEC)), ('user', {'pdu': REL_RQ}),
+        ('burst', enc(echo_rsp(4), REL_RP)), ('close',)])
     c['req-echo-release'] = ('requestor', [
         ('user', {'pdu': RQ_SPEC}), ('burst', enc(AC_SPEC)), ('user', {'msg': [echo_rq(1)]}),
         ('burst', enc(echo_rsp(1), echo_rsp(1))), ('user', {'pdu': REL_RQ}), ('burst', enc(REL_RP))])
